@@ -744,6 +744,43 @@ func laFrame(c *Ctx, rule string) {
 		switch {
 		case ac == nil || bc == nil || !isWriteMethodCall(&ac.Call):
 			why = "unexpected call forms"
+		case fullCalleeName(&bc.Call) != "encoding/binary.Write" && isWriteMethodCall(&bc.Call):
+			// the other form: binary.LittleEndian.PutUint32(buf[:], uint32(n)) into a 4-byte buffer, then w.Write(buf[:])
+			why = "the footer length is not written with encoding/binary.Write or as a 4-byte little-endian buffer filled by PutUint32"
+			root := func(v ssa.Value) ssa.Value {
+				if sl, ok := v.(*ssa.Slice); ok {
+					return sl.X
+				}
+				return v
+			}
+			buf := root(bc.Call.Args[len(bc.Call.Args)-1])
+			if fixedBufLen(bc.Call.Args[len(bc.Call.Args)-1]) == 4 || fixedBufLen(buf) == 4 {
+				for _, blk := range ft.Blocks {
+					for _, ins := range blk.Instrs {
+						put, ok := ins.(*ssa.Call)
+						if !ok || put.Call.StaticCallee() == nil || !strings.HasSuffix(put.Call.StaticCallee().String(), "littleEndian).PutUint32") {
+							continue
+						}
+						pa := put.Call.Args
+						if root(pa[len(pa)-2]) != buf {
+							continue
+						}
+						cv, _ := pa[len(pa)-1].(*ssa.Convert)
+						var ex *ssa.Extract
+						if cv != nil {
+							ex, _ = cv.X.(*ssa.Extract)
+						}
+						switch {
+						case ex == nil || ex.Tuple != ssa.Value(ac) || ex.Index != 0:
+							why = "the footer length written is not the byte count returned by the write of the serialised metadata"
+						case !dominatesInstr(ac, put) || !dominatesInstr(put, bc):
+							why = "the length can be written without the metadata (or before it is put into its buffer)"
+						default:
+							okLen = true
+						}
+					}
+				}
+			}
 		case fullCalleeName(&bc.Call) != "encoding/binary.Write":
 			why = "the footer length is not written with encoding/binary.Write"
 		case !strings.HasSuffix(symExpr(bc.Call.Args[1], 0), "binary.LittleEndian)"):
@@ -782,7 +819,7 @@ func laFrame(c *Ctx, rule string) {
 
 func checkC02(c *Ctx) {
 	r := c.R
-	r.Explanation = "Necessary structural conditions of C02 (all inputs at once): (LA-len) per page, the page header's compressed/uncompressed sizes are the lengths of the body actually written / of its uncompressed input, the chunk totals grow by exactly body + header bytes written (no swap, nothing forgotten), header and chunk value counts are the same quantity — a linear-form evaluation over slice lengths through DoWrite -> WritePageHeader -> updateRowGroup -> updateColumnChunk; (LA-frame) PAR1 is the first thing written, Close writes the footer then PAR1 last, the little-endian 4-byte footer length is the count returned by the write of the serialised metadata; (TV-fields, corpus) the schema inputs handed to the runtime — column list, order, paths, repetition kinds, Types arity — match the struct for every shape; (WH-rows, WH-empty, WH-groups) footer row count from emitted groups, no bytes outside accounted row groups, NumRows assigned at write time from a per-group counter; (TD, FT) the column lists handed to parquet.New / StartRowGroup are Schema() of every column in order, Schema() reports the column's own name/path/repetition/types, page order of Write, value counts handed to DoWrite; (LA-offset, LA-footer) offsets advance by total_compressed_size only, chunk totals and total_byte_size accumulate; (LA-cells) pointer cells of schema elements are per element. NOT decided: the schema tree built by schema() (same-named groups under different parents collide), offset sums, thrift encoding, page record limits."
+	r.Explanation = "Necessary structural conditions of C02 (all inputs at once): (LA-len) per page, the page header's compressed/uncompressed sizes are the lengths of the body actually written / of its uncompressed input, the chunk totals grow by exactly body + header bytes written (no swap, nothing forgotten), header and chunk value counts are the same quantity — a linear-form evaluation over slice lengths through DoWrite -> WritePageHeader -> updateRowGroup -> updateColumnChunk; (LA-frame) PAR1 is the first thing written, Close writes the footer then PAR1 last, the little-endian 4-byte footer length is the count returned by the write of the serialised metadata; (TV-fields, corpus) the schema inputs handed to the runtime — column list, order, paths, repetition kinds, Types arity — match the struct for every shape; (WH-rows, WH-empty, WH-groups) footer row count from emitted groups, no bytes outside accounted row groups, NumRows assigned at write time from a per-group counter; (TD, FT) the column lists handed to parquet.New / StartRowGroup are Schema() of every column in order, Schema() reports the column's own name/path/repetition/types, page order of Write, value counts handed to DoWrite; (LA-offset, LA-footer) offsets advance by total_compressed_size only, chunk totals and total_byte_size accumulate; (LA-cells) pointer cells of schema elements are per element. (LA-footer) of the schema tree built by schema(): a group's repetition comes from its own index, child counts count direct children once, groups are identified by their whole path. NOT decided: that schema()'s listing is the tree of every struct shape beyond those conditions, offset sums as values, thrift encoding, page record limits."
 	laLen(c, "LA-len")
 	laFrame(c, "LA-frame")
 	laOffset(c, "LA-offset")
